@@ -74,9 +74,20 @@ pub async fn judge_crash_dir(cfg: &Cfg, dir: &Path, lazy: bool, nkeys: u8, findi
                 return fail("crash/wellformed-blob-dropped", format!("blob {} parses completely ({} records) but was removed from the work dir", id, parsed.records.len()));
             }
             let mut recs = vec![];
-            for r in &parsed.records {
+            for (ri, r) in parsed.records.iter().enumerate() {
                 match rec_of(r, &key_of) {
                     Some(x) => recs.push(x),
+                    // The LAST record of a blob whose header and data are complete but whose meta bytes do not decode
+                    // canonically: a tear inside the meta section that was filled up (zeros) to the recorded length. No
+                    // checksum covers meta bytes, so the storage cannot notice; whether it serves that record (with
+                    // whatever its decoder makes of the bytes) or drops the blob is not judged - init has succeeded,
+                    // that is all this state allows to demand.
+                    None if ri + 1 == parsed.records.len() && key_of(&r.hdr.key).is_some() => {
+                        labels.insert("undetectably_torn_meta_in_tail_record".to_string());
+                        let _ = ex.close().await;
+                        let physical: BTreeMap<usize, Vec<ParsedRec>> = before.iter().map(|(i, (_, _, p))| (*i, p.records.clone())).collect();
+                        return Ok(CrashVerdict { labels, queries: 0, physical, quarantined });
+                    }
                     None => return fail("harness/model", format!("blob {} holds a record with an unknown key or undecodable meta", id)),
                 }
             }
